@@ -115,6 +115,26 @@ def gen_random(rng, n):
     return out
 
 
+def gen_history(rng, k):
+    """Histories for one process: the same clause set presented again in another clause order, with the literals of every
+    clause reversed, with a clause repeated, with a literal repeated, and once more unchanged.  Every answer is judged
+    against ITS OWN input (a result remembered from an earlier call names the wrong clauses)."""
+    out = []
+    bases = [[[(0, True)], [(0, False), (1, True)], [(1, False), (2, True)], [(0, False), (2, False)]],
+             [[(0, True), (1, True)], [(0, False), (1, True)], [(0, True), (1, False)], [(0, False), (1, False)]]]
+    while len(bases) < k:
+        nv = rng.randint(3, 6)
+        bases.append(gen_ksat(rng, nv, int(nv * rng.uniform(4.0, 6.0)), [2, 3, 3]))
+    for base in bases[:k]:
+        perm = rng.sample(base, len(base))
+        rev = [list(reversed(cl)) for cl in base]
+        dupc = base[:1] + base if base else base
+        dupl = [cl + cl[:1] for cl in base]
+        rot = base[1:] + base[:1]
+        out += [base, perm, rev, dupc, dupl, rot, list(reversed(base)), base]
+    return out
+
+
 def gen_exhaustive(max_clauses):
     """All clause *lists* (as combinations, in pool order) over 3 variables: clauses are the
     multisets of width <= 3 over 6 literals written in a fixed order (84 of them)."""
@@ -404,8 +424,44 @@ def subterms_all(t):
     return out
 
 
+def proofterm_instances(pt, names, ctx):
+    """The instantiated library theorems in the exported proof term of tseitin.encode: [(theorem, variable codes)], or None
+    when the export no longer has the theorem/substitution shape (then nothing is compared)."""
+    try:
+        prf = pt.export()
+        items = {str(it.id): it for it in prf.items}
+        out = []
+        for it in prf.items:
+            ctx.count("tseitin:proofterm-rule:%s" % it.rule)
+            if it.rule == "substitution" and len(it.prevs) == 1:
+                prev = items.get(str(it.prevs[0]))
+                if prev is not None and prev.rule == "theorem":
+                    out.append((str(prev.args), tuple(names.code(it.args[k].name) for k in sorted(it.args.keys()))))
+        return sorted(set(out))
+    except Exception:  # noqa
+        ctx.count("tseitin:proofterm-shape-unreadable")
+        return None
+
+
+def expected_instances(hyps):
+    """From the model's equations: x <--> y & z is encode_conj[l=x, r1=y, r2=z] and so on; x <--> true is eq_true[A=x]."""
+    out = []
+    rule = {"and": "encode_conj", "or": "encode_disj", "imp": "encode_imp", "iff": "encode_eq", "not": "encode_not"}
+    for h in hyps:
+        if isinstance(h, list) and h[0] == "iff" and isinstance(h[1], list) and h[1][0] == "atom":
+            x, rhs = int(h[1][1]), h[2]
+            if rhs == "tt":
+                out.append(("eq_true", (x,)))
+            elif rhs == "ff":
+                out.append(("eq_false", (x,)))
+            elif isinstance(rhs, list) and rhs[0] in rule and all(isinstance(t, list) and t[0] == "atom" for t in rhs[1:]):
+                out.append((rule[rhs[0]], (x,) + tuple(int(t[1]) for t in rhs[1:])))
+    return set(out)
+
+
 def tseitin_stage(ctx, only=None):
     from kernel import term as T, theory, report
+    from kernel.type import BoolType
     from logic import basic
     from prover import tseitin
     basic.load_theory('sat')
@@ -413,13 +469,24 @@ def tseitin_stage(ctx, only=None):
     plain, clash, near, opaque = make_atoms(T)
     a, b = plain[0], plain[1]
     x1, x2 = clash[0], clash[1]
-    n = ctx.scale(70, 700)
+    n = ctx.scale(70, 400)
     lines, impl_cnfs = [], []
     fixed = [a, T.And(a, a), T.Eq(a, b), T.Not(T.Not(a)),
              T.Or(T.And(a, T.Not(a)), b), T.Implies(T.And(a, b), T.And(a, b)),
              T.And(a, T.Not(x1)), T.And(x1, T.Not(a)), T.Or(x2, T.And(x1, a)), T.Eq(x1, T.Not(x2)), x1,
              T.true, T.false, T.Not(T.true), T.And(a, T.false), T.Or(a, T.true), T.Eq(a, T.true), T.Implies(T.false, a),
              opaque[0], T.And(a, opaque[0]), T.Not(opaque[1]), T.Eq(opaque[2], a), T.And(opaque[3], T.Not(opaque[0]))]
+    x3, x4 = clash[2], clash[3]
+    fixed += [T.And(x1, x2), T.Or(x1, T.And(x2, x3)), T.Implies(T.And(x1, x2), T.Or(x3, x4)), T.And(T.Not(x2), T.Or(x3, a)),
+              T.Eq(T.And(x1, x2), T.And(x2, x1)), T.Not(T.Implies(T.And(x1, T.And(x2, x3)), x2))]
+    # atoms taken from an earlier encoding's output: the clauses of encode(a & b --> a | b) as a formula
+    try:
+        prev = tseitin.convert_cnf(tseitin.encode(T.Implies(T.And(a, b), T.Or(a, b))).prop)
+        lit = lambda nm, bv: T.Var(nm, BoolType) if bv else T.Not(T.Var(nm, BoolType))  # noqa
+        cls = [T.Or(*[lit(nm, bv) for nm, bv in cl]) for cl in prev]
+        fixed += [T.And(*cls[:3]), T.And(*cls), T.Not(T.And(*cls[:4]))]
+    except Exception:  # noqa
+        pass
     if only is not None:
         fixed, n = [t for t in only], 0
     for i in range(n + len(fixed)):
@@ -471,7 +538,8 @@ def tseitin_stage(ctx, only=None):
             lines.append(sexp.dumps(["tseitin", fx, sorted(set(extra)), [form_sexp(g, names) for g in order]]))
             lines.append(sexp.dumps(["tseitin-hyps", fx, sorted(set(extra)), [form_sexp(g, names) for g in order]]))
             impl_cnfs.append((str(f), [[(names.decode_aux(nm), bv) for nm, bv in cl] for cl in cnf],
-                              sorted(sexp.dumps(form_sexp(h, names)) for h in pt.hyps)))
+                              sorted(sexp.dumps(form_sexp(h, names)) for h in pt.hyps),
+                              proofterm_instances(pt, names, ctx)))
         except Exception as e:  # noqa
             ctx.broken("correspondence:c15:tseitin", "cannot read the subterm numbering of %s: %r" % (f, e))
         f_atoms = sorted(atoms_of(f, set()))
@@ -505,7 +573,19 @@ def tseitin_stage(ctx, only=None):
         ctx.broken("correspondence:c15:driver", "model driver unavailable (tseitin)")
         return
     ndis = 0
-    for (fs, icnf, ihyps), line, hline in zip(impl_cnfs, out[0::2], out[1::2]):
+    for (fs, icnf, ihyps, iinst), line, hline in zip(impl_cnfs, out[0::2], out[1::2]):
+        # the proof term, rule by rule where it matters: which encode_* / eq_true / eq_false theorem is instantiated
+        # with which variables must be what the model's equations say (one instance per equation x <--> op(y, z))
+        if iinst is not None:
+            try:
+                want = sorted(expected_instances(sexp.loads(hline)[:-1]))   # the last hypothesis is the formula itself
+            except Exception:  # noqa
+                want = None
+            ctx.count("tseitin:proofterm-instances-compared")
+            if want != iinst:
+                ndis += 1
+                if ndis <= 3:
+                    ctx.broken("correspondence:c15:tseitin-proofterm", "formula=%s impl=%s model=%s" % (fs, iinst, want))
         ctx.count("tseitin:cnf-compared")
         # the whole statement of the theorem: hypotheses x_i <--> ... and the formula
         try:
@@ -825,7 +905,7 @@ def zchaff_stage(ctx, sat):
         def communicate(self):
             return (b"c stub\nRESULT:\tUNSAT\r\n", b"")
 
-    def run_one(F):
+    def run_one(F, damage=None):
         z = zchaff.zChaff(T.Not(F))
         zc = [[(abs(l), l > 0) for l in cl] for cl in z.cnf_list]
         res = sat.solve_cnf([[("y%d" % n, b) for n, b in cl] for cl in zc])
@@ -835,6 +915,10 @@ def zchaff_stage(ctx, sat):
         trace, learned = make_zchaff_trace(zc, proofs)
         if trace is None:
             return ("no-level0-conflict",), None
+        if damage is not None:
+            trace = damage(trace)
+            if trace is None:
+                return ("not-damaged",), None
         with open(".\\resolve_trace", "w") as fh:
             fh.write(trace)
         n0 = len(zc)
@@ -846,14 +930,14 @@ def zchaff_stage(ctx, sat):
         for k in range(n0, n0 + len(proofs) - 1):
             prop = z.clause_pt[k].prop
             replayed.append(sorted(set((z.var_index[l.arg if l.is_not() else l], not l.is_not()) for l in ([] if prop == T.false else prop.strip_disj()))))
-        return ("proved" if good else "bad-theorem",), (zc, proofs, replayed)
+        return ("proved" if good else "bad-theorem",), (zc, proofs, replayed, trace)
 
     old_cwd, old_popen = os.getcwd(), zchaff.subprocess.Popen
     work = os.path.join(ctx.scratch, "zchaff")
     os.makedirs(os.path.join(work, "sat"), exist_ok=True)
     os.chdir(work)
     zchaff.subprocess.Popen = FakeProcess
-    lines, impl = [], []
+    lines, impl, dlines, dimpl = [], [], [], []
     try:
         # is the stub still wired the way solve() expects (paths, attributes)?  if not: nothing to tie, not an alarm
         try:
@@ -884,17 +968,52 @@ def zchaff_stage(ctx, sat):
             elif res[0] == "raise":
                 ctx.broken("correspondence:c15:zchaff-replay", "zChaff.solve raised %s on the tautology %s with a generated trace" % (res[1], F))
             elif info is not None:
-                zc, proofs, replayed = info
+                zc, proofs, replayed, trace = info
                 lines.append(sexp.dumps(["zreplay", s_cnf([list(dict.fromkeys(c)) for c in zc]), [p for _, p in proofs[:-1]]]))
+                lines.append(sexp.dumps(["zcheck", s_cnf([list(dict.fromkeys(c)) for c in zc]), [ln.split() for ln in trace.splitlines()]]))
                 impl.append((str(F), len(zc), replayed))
+                # the same trace damaged (a VAR line lost / the conflict line naming another clause): both must refuse
+                def damage(tr, k=i):
+                    tl = tr.splitlines()
+                    vs_ = [n_ for n_, ln in enumerate(tl) if ln.startswith("VAR")]
+                    if k % 2 == 0 and len(vs_) >= 2:
+                        bad = tl[:vs_[0]] + tl[vs_[0] + 1:]
+                    else:
+                        bad = [("CONF: 0 == " + ln.split("==")[1].strip()) if ln.startswith("CONF") else ln for ln in tl]
+                    return None if bad == tl else "\n".join(bad) + "\n"
+                try:
+                    with time_limit(180):
+                        res2, info2 = run_one(F, damage)
+                except Timeout:
+                    raise
+                except BaseException as e:  # noqa
+                    res2, info2 = ("raise", type(e).__name__), None
+                if res2 != ("not-damaged",):
+                    ctx.count("zchaff:damaged-trace:%s" % res2[0])
+                    zc2 = [[(abs(l), l > 0) for l in cl] for cl in zchaff.zChaff(T.Not(F)).cnf_list]
+                    dlines.append(sexp.dumps(["zcheck", s_cnf([list(dict.fromkeys(c)) for c in zc2]),
+                                              [ln.split() for ln in damage(trace).splitlines()]]))
+                    dimpl.append((str(F), res2))
     finally:
         os.chdir(old_cwd)
         zchaff.subprocess.Popen = old_popen
     out = ctx.lean_driver(EXE, lines) if lines else []
+    dout = ctx.lean_driver(EXE, dlines) if dlines else []
     ndis = 0
-    for (fs, n0, replayed), line in zip(impl, out or []):
+    for (fs, res2), zline in zip(dimpl, dout or []):
+        ctx.count("zchaff:damaged-trace-model:%s" % zline)
+        if (res2 == ("proved",)) != (zline == "T"):
+            ndis += 1
+            if ndis <= 3:
+                ctx.broken("correspondence:c15:zchaff-check", "formula=%s damaged trace: zChaff.solve %s, model zCheck %s" % (fs, res2, zline))
+    for (fs, n0, replayed), line, zline in zip(impl, (out or [])[0::2], (out or [])[1::2]):
         m = None if line == "none" else [sorted(set((int(n), b == "T") for n, b in cl)) for cl in sexp.loads(line)][n0:]
         ctx.count("zchaff:replayed-clauses-compared")
+        ctx.count("zchaff:zcheck-model:%s" % zline)
+        if zline != "T":                                     # the real solve() went through: the verified checker must accept too
+            ndis += 1
+            if ndis <= 3:
+                ctx.broken("correspondence:c15:zchaff-check", "formula=%s: zChaff.solve proved it but the model's zCheck rejects the trace" % fs)
         if m != replayed:
             ndis += 1
             if ndis <= 3:
@@ -1187,7 +1306,7 @@ def run(ctx):
                             "(3-12 variables, up to 60 clauses), structured (all sign patterns, pigeonhole, parity chains, implication ladders; shuffled, "
                             "renamed, polarity-flipped), and messy (1-8 variables, unit/empty/duplicate clauses, repeated and complementary literals); in "
                             "the thorough tier also every combination of <=3 clauses out of the 84 clause multisets of width <=3 over 3 variables and every "
-                            "combination of 4 out of the 42 clause sets, each in enumeration order and in one shuffled order. "
+                            "combination of 4 out of the 42 clause sets, each in enumeration order, every fourth also in one shuffled order; histories: the same clause set presented again in the same process permuted, with reversed literals, with a repeated clause or literal. "
                             "Non-trivial = at least two clauses and one clause of width >=2; distinct by the literal lists. The histogram records how many "
                             "resolution calls / learned clauses each run needed. Tseitin: fixed corner cases, random formulas of depth <=3 over atom pools that "
                             "include variables named x1..x6 (the names encode generates), x, x0, x01, x10, y1, the constants true/false and "
@@ -1217,17 +1336,20 @@ def run(ctx):
     rng = ctx.rng("cnf")
     corpus = load_corpus(ctx)
     check_cases(ctx, sat, corpus, "corpus")
-    cases = gen_random(rng, ctx.scale(3000, 40000))
+    cases = gen_random(rng, ctx.scale(3000, 18000))
     for c in cases[:3]:
         ctx.sample({"cnf": c})
     have_model = check_cases(ctx, sat, cases, "random")
+    check_cases(ctx, sat, gen_history(ctx.rng("history"), ctx.scale(40, 150)), "history")
     if ctx.tier == "thorough":
         batch = []
         prng = ctx.rng("perm")
+        nexh = 0
         for cnf in itertools.chain(gen_exhaustive(3), gen_exhaustive_sets(4)):
             batch.append(cnf)
             # the enumeration fixes clause and literal order (pool order): also a shuffled copy of every case with >= 2 literals
-            if sum(len(cl) for cl in cnf) >= 2:
+            nexh += 1
+            if nexh % 4 == 0 and sum(len(cl) for cl in cnf) >= 2:
                 sh = [prng.sample(cl, len(cl)) for cl in cnf]
                 prng.shuffle(sh)
                 if sh != cnf:
@@ -1239,19 +1361,19 @@ def run(ctx):
             check_cases(ctx, sat, batch, "exhaustive")
         ctx.coverage["exhaustive"] = False  # exhaustive for the stated sub-space only
         ctx.coverage["exhaustive_subspace"] = ("all <=3-clause combinations of the 84 clause multisets of width <=3 over 3 variables, and all "
-                                               "4-clause combinations of the 42 clause sets of width <=3 over 3 variables; each in pool order and once with "
+                                               "4-clause combinations of the 42 clause sets of width <=3 over 3 variables; each in pool order, every fourth also once with "
                                                "clauses and literals shuffled")
     if not have_model:
         ctx.broken("correspondence:c15:driver", "model driver unavailable")
     # 4. tseitin
     tseitin_stage(ctx)
     # 5. replay of traces by logic.resolution, proofrec.solve_cnf
-    k = ctx.scale(120, 1500)
+    k = ctx.scale(120, 800)
     step = max(1, len(UNSAT_TRACES) // k)
     replay_stage(ctx, sat, UNSAT_TRACES[::step][:k])
     del UNSAT_TRACES[:]
     zchaff_stage(ctx, sat)
-    nolearn_stage(ctx, sat, cases[:ctx.scale(400, 4000)])
+    nolearn_stage(ctx, sat, cases[:ctx.scale(400, 2000)])
 
 
 def load_corpus(ctx):
@@ -1285,19 +1407,24 @@ MANIFEST = {
             "encode_sequent_valid (hypotheses entail the CNF), tseitin_name_clash_counterexample for the naming before the fix; clause groups "
             "are the encode_* rules regenerated from library/sat.json on each run. Replay of resolution traces by logic.resolution as "
             "zChaff.solve and proofrec.solve_cnf run it: macro_resolve_sound, replay_sound, replay_empty_unsat, solver_trace_replays (the proofs solve_cnf returns replay with the macro "
-            "to the empty clause). Termination: "
+            "to the empty clause). zChaff traces (CL / VAR / CONF lines, parsed from the tokens of the file): zchaff_replay_sound (if the "
+            "reconstruction goes through the CNF is unsatisfiable). Termination: "
             "solve_terminates (termFuel n = n(n+1)^n + 2^n + 1 rounds suffice for n variables, for every CNF and set order), "
             "analyze_terminates (the loop of analyze_conflict), total_correctness (with that fuel: 'satisfiable' with a solution, or "
             "'unsatisfiable' with proofs passing the verified checker and no model), solve_terminates_no_learning (#variables+1 rounds "
             "on runs that learn nothing). Every model is tied to the "
             "real code by differential streams: solve_cnf runs, tseitin.encode's CNF and hypotheses, single logic.resolution steps, traces of "
-            "solve_cnf replayed with the real macro, proofrec.solve_cnf end to end, the real zChaff.solve on generated traces (binary stubbed), "
+            "solve_cnf replayed with the real macro, proofrec.solve_cnf end to end, the real zChaff.solve on generated traces and on damaged ones (binary stubbed) against the model's zCheck, the instantiated "
+            "encode_* / eq_true / eq_false theorems in the exported proof term of tseitin.encode against the model's equations, "
             "noLearnRun against the solver's debug output.",
     "note": "Termination is a theorem about the model (fuel stands in for `while True`); the tie of the model to prover/sat.py is the "
             "differential streams, and non-termination of the real code is still also searched for with time limits. NOT proved: that tseitin.encode's proof term is accepted by the checker (judged by the real checker on generated formulas; the construction "
             "from kernel rules is not modelled: only its statement is); that the model's own default subterm order passes orderOK (evaluated; "
-            "the real order always did). The VAR/CONF sections of zChaff traces and the discharge steps of zChaff.solve / proofrec.solve_cnf "
-            "are exercised on the real code only (theorem returned must be |- F and check), not modelled. Trusted: Lean kernel, "
+            "the real order always did). The proof term of tseitin.encode goes through the macros imp_conj / apply_theorem and about 100 primitive "
+            "steps per formula; it is NOT modelled on the kernel model (no encode_proofterm_checks): only its statement, its hypotheses and "
+            "the theorem instances it uses are compared with the model, and the real checker judges it. The discharge steps of zChaff.solve / "
+            "proofrec.solve_cnf (conjD, implies_intr/elim, negI) are exercised on the real code only (theorem returned must be |- F and check). "
+            "Number lexing of trace tokens is done by the driver, not the model. Trusted: Lean kernel, "
             "propext/Classical.choice/Quot.sound, the harness generators and the recording of Python set orders, the sat.json translator. "
             "Needs the /repo fixes fixes/C15-2..5.patch (without C15-4/5 the check reports the RecursionError of logic.resolution and the "
             "failure of proofrec.solve_cnf on tautologies with a repeated argument).",
